@@ -188,7 +188,7 @@ def run_one(i, extra):
     policy = rng.choice(["canonical", "shuffle", "pct", "latency-small"])
     cfg = E.policy_cfg(policy)
     cfg["execution_ttl"] = 120
-    cfg["max_steps"] = 6000
+    cfg["max_steps"] = 1500
     scn = {"machines": {"healthy": {"definition": HEALTHY, "type": "STANDARD"}},
            "executions": [{"machine": "healthy", "input": {"h": 1}, "name": "h1", "at": 0.0}],
            "script": script, "functions": sorted(set(functions) | set(HEALTHY_SCRIPT)), "config": cfg}
@@ -233,7 +233,7 @@ def run_one(i, extra):
                 "distinct": []}
     w = res.world
     node = w.nodes[0]
-    if res.sim.steps >= 4000:
+    if res.sim.steps >= 1200:
         # the mutant spins at one virtual instant (events published without end): with zero-cost handlers virtual
         # time cannot advance past it, which says nothing about the other executions of a real, fair engine
         return {"evaluations": 1, "probes": dict(probes, **{"skipped:mutant-spins-at-one-instant": 1}), "findings": findings,
